@@ -58,5 +58,8 @@ var FuzzTargets = func() []TypeDesc {
 		fk(KString), fk(KInt64), farr(8), fk(KBytes), // 18..21 top-level scalars
 		// 22: inlined single-pointer chain down to a map
 		fst(fptr(fst(fptr(fst(fmp(fk(KString), fk(KInt))))))),
+		// 23..26: implementers and corpus structs behind 1..3 pointers, as the top-level value and as fields
+		fptr(fptr(fnm("Msg"))), fptr(fptr(fptr(fnm("Custom16")))), fptr(fnm("RawMessage")),
+		fst(fk(KInt), fptr(fnm("RawMessage")), fptr(fptr(fnm("Msg"))), fptr(fptr(fptr(fnm("Tree")))), fptr(fnm("CustomS")), fsl(fptr(fnm("Msg")))),
 	}
 }()
